@@ -16,7 +16,7 @@ def run(ctx):
         return
     cs = c01.cases(ctx)
     if ctx.quick:
-        cs = cs[:900]
+        cs = cs[:2500]
     res = S.run_enc(ctx, cs)
     for r in res:
         c = r["case"]
